@@ -191,6 +191,8 @@ def pcm_call(c):
     S = Stubs(c)
     dt = c.time('dt')
     pcm = PCM(S.broker, 'pid', S.uni, S.sizer, FixedWeightPortfolioOptimiser(), alpha_model=S.alpha_model)
+    # the alpha model's dictionary belongs to the caller (a fixed-signals model hands out the SAME object at every rebalance)
+    alpha0 = (S.alpha.dom, dict(S.alpha.cols)) if c.mode == 'sym' else dict(S.alpha)
     # an EARLIER rebalance of the same model at the same instant, when the holdings were different (orders filled in
     # between), must not influence this one
     held_now = S.held
@@ -217,6 +219,13 @@ def pcm_call(c):
         orders = pcm(dt, stats=stats)
     finally:
         unregister_loops()
+    if c.mode == 'sym':
+        c.ob('alpha-weights-not-modified', z3.And(S.alpha.dom == alpha0[0], *[S.alpha.cols[f] == alpha0[1][f] for f in alpha0[1]]) if set(S.alpha.cols) == set(alpha0[1]) else False,
+             props=['C09', 'C18', 'C19'])
+    else:
+        c.ob('alpha-weights-not-modified', S.alpha == alpha0, props=['C09', 'C18', 'C19'])
+        S.alpha.clear()
+        S.alpha.update(alpha0)           # (judge the rest against what the alpha model really said)
     inset = OR(S.held_(w), S.uni.member(w, dt), S.alpha_(w))
     weight = ITE(S.alpha_(w), VAL(S.alpha, w), 0.0) if c.mode == 'sym' else (S.alpha[w] if w in S.alpha else 0.0)
     # --- recorded allocation
